@@ -2,29 +2,80 @@
    groups leaves a bundle that describes the state after the earlier groups. *)
 From stdpp Require Import gmap.
 From Coq Require Import ZArith.
-From RevmV Require Import Model.Bundle Spec.BundleSpec Spec.BundleHist Proofs.BundleProofs Proofs.BundleWitness.
+From RevmV Require Import Model.Bundle Spec.BundleSpec Spec.BundleHist Proofs.BundleProofs Proofs.BundleProofsRev
+  Proofs.BundleWitness.
 Local Open Scope Z_scope.
 
 (* state after the first n groups *)
 Definition after (p0 : plain) (groups : list (list txout)) (n : nat) : plain :=
   plain_after p0 (firstn n groups).
 
-(* Full statements (NOT proved; tested on every generated history by Corr/C17.v).
-   Clause 1: group k's plain reverts, applied by the specification apply_plain_revert to the state
-   after group k (wiped storage falls back to the pre-bundle state p0, RevertToSlot::Destroyed
-   inside a wiped revert reads as the p0 value), give the state before group k - hence for every
-   touched account its info before group k or its absence, and for every slot its value before. *)
+(* Clause 1 (PROVED below, C17_reverts_correct): group k's plain reverts, applied by the
+   specification apply_plain_revert to the state after group k (wiped storage falls back to the
+   pre-bundle state p0, RevertToSlot::Destroyed inside a wiped revert reads as the p0 value), give
+   the state before group k - hence for every touched account its info before group k or its
+   absence, and for every slot its value before. *)
 Definition C17_statement_reverts : Prop :=
   forall p0 groups b (k : nat) r,
     HistOK p0 groups -> bundle_of true groups = Some b ->
     nth_error (to_plain_state_reverts (bs_reverts b)) k = Some r ->
     plain_equiv (apply_plain_revert p0 r (after p0 groups (S k))) (after p0 groups k).
-(* Clause 2 (false for either OriginalValuesKnown setting, see the two refutations below). *)
+(* Clause 2 (NOT provable: false for either OriginalValuesKnown setting, see the two refutations
+   below; tested outside the two known-finding classes by Corr/C17.v). *)
 Definition C17_statement_revert_changeset : Prop :=
   forall p0 groups b (j : nat),
     HistOK p0 groups -> bundle_of true groups = Some b -> (j <= length groups)%nat ->
     plain_equiv (apply_changeset (to_plain_state (revert b j) false) p0)
                 (after p0 groups (length groups - j)).
+
+
+(* Clause 1 for ALL TransOK histories and merge schedules.  Proof (Proofs/BundleProofsRev.v): for
+   every reachable cell (bundle status or previous status of an unknown address) x (merged
+   transition status, wiped or not) the AccountRevert built by update_and_create_revert - all five
+   shapes: previous values of changed slots, new_selfdestructed, new_selfdestructed_again with and
+   without wipe, new_selfdestructed_from_bundle - maps (info, slot) after the group to (info, slot)
+   before it (ucr_revert); dropping an empty revert changes nothing; untouched addresses have no
+   revert and did not change; induction over the groups (rev_history). *)
+Theorem C17_reverts_correct : C17_statement_reverts.
+Proof. exact reverts_correct. Qed.
+
+(* per account and per slot reading of the same fact (the property's wording): the revert recorded
+   for address a in a group gives a's info before the group (RevertTo), its absence (DeleteIt) or
+   says it did not change; a listed slot gives its value before the group, RevertToSlot::Destroyed
+   and unlisted slots of a wiped revert read as the pre-bundle value, unlisted slots otherwise did
+   not change *)
+Theorem C17_revert_per_account :
+  forall p0 (g : gmap Z arevert) cur a,
+    acc_get (apply_plain_revert p0 (mkPR (omap pr_account_of g) (omap pr_storage_of g)) cur) a
+    = match g !! a with
+      | Some rv => match r_acc rv with
+                   | RevertTo i => Some (strip i) | DeleteIt => None | DoNothing => acc_get cur a end
+      | None => acc_get cur a
+      end.
+Proof. exact plain_revert_acc. Qed.
+Theorem C17_revert_per_slot :
+  forall p0 (g : gmap Z arevert) cur a k,
+    stor_get (apply_plain_revert p0 (mkPR (omap pr_account_of g) (omap pr_storage_of g)) cur) a k
+    = match g !! a with
+      | None => stor_get cur a k
+      | Some rv =>
+          match r_storage rv !! k with
+          | None => if r_wipe rv then stor_get p0 a k else stor_get cur a k
+          | Some (RSome v) => v
+          | Some RDestroyed => if r_wipe rv then stor_get p0 a k else 0
+          end
+      end.
+Proof. exact plain_revert_stor. Qed.
+
+(* non-vacuity of clause 1: a history with creation, destruction and re-creation whose bundle has
+   three revert groups *)
+Example C17_reverts_satisfiable :
+  HistOK p5 w5 /\ exists b, bundle_of true w5 = Some b /\
+    length (to_plain_state_reverts (bs_reverts b)) = 3%nat.
+Proof.
+  split; [split; [exact p5_wf | split; [exact p5_nocode | vm_compute; reflexivity]]|].
+  exists (bof w5). split; [apply bof_some; vm_compute; reflexivity|]. vm_compute. reflexivity.
+Qed.
 
 (* proved: Reverts::to_plain_state_reverts is exact, group by group and address by address *)
 Theorem C17_plain_reverts_groups :
@@ -63,7 +114,7 @@ Theorem C17_revert_changeset_known_refuted :
     ~ plain_equiv (apply_changeset (to_plain_state (revert b 1) true) p0)
                   (after p0 groups (length groups - 1)).
 Proof.
-  exists pe, w1, bw1. split; [split; [exact pe_wf | vm_compute; reflexivity]|].
+  exists pe, w1, bw1. split; [split; [exact pe_wf | split; [exact pe_nocode | vm_compute; reflexivity]]|].
   split; [apply bof_some; vm_compute; reflexivity|].
   intros [_ H]. specialize (H 1 1). vm_compute in H. discriminate.
 Qed.
@@ -77,7 +128,7 @@ Theorem C17_revert_changeset_unknown_refuted :
     ~ plain_equiv (apply_changeset (to_plain_state (revert b 2) false) p0)
                   (after p0 groups (length groups - 2)).
 Proof.
-  exists p6, w6, bw6. split; [split; [exact p6_wf | vm_compute; reflexivity]|].
+  exists p6, w6, bw6. split; [split; [exact p6_wf | split; [exact p6_nocode | vm_compute; reflexivity]]|].
   split; [apply bof_some; vm_compute; reflexivity|].
   intros [_ H]. specialize (H 1 2). vm_compute in H. discriminate.
 Qed.
